@@ -241,7 +241,9 @@ func (g *Generator) generateTimestampFieldUnmarshal(gf *protogen.GeneratedFile, 
 	format := fieldInfo.Format
 
 	gf.P("// Convert ", jsonName, " from ", format.String(), " to RFC 3339 for protojson")
-	gf.P(`if v, ok := raw["`, jsonName, `"]; ok {`)
+	// JSON null means "unset" (proto3 JSON): leave it for protojson instead of decoding
+	// it as the zero instant.
+	gf.P(`if v, ok := raw["`, jsonName, `"]; ok && string(v) != "null" {`)
 
 	switch format {
 	case http.TimestampFormat_TIMESTAMP_FORMAT_UNIX_SECONDS:
